@@ -93,10 +93,26 @@ pub fn install_panic_hook() {
         } else {
             "non-string panic payload".to_string()
         };
-        let loc = info
+        let mut loc = info
             .location()
             .map(|l| format!("{}:{}", l.file(), l.line()))
             .unwrap_or_else(|| "?".into());
+        // panics raised inside dependencies (fixed, arrayvec, core): name the first frame of the
+        // system under test from a forced backtrace, so that the signature identifies the call site
+        if !loc.contains("/repo/") && !loc.contains("/verif/") {
+            let bt = std::backtrace::Backtrace::force_capture().to_string();
+            let mut lines = bt.lines();
+            while let Some(l) = lines.next() {
+                let t = l.trim_start();
+                let sym = t.split_once(": ").map(|x| x.1).unwrap_or(t);
+                if sym.starts_with("statime::") || sym.starts_with("<statime::") || sym.starts_with("statime_linux::") || sym.starts_with("<statime_linux::") {
+                    let at = lines.next().map(|l| l.trim().trim_start_matches("at ").to_string()).unwrap_or_default();
+                    let short = at.rsplit("/repo/").next().unwrap_or(&at).to_string();
+                    loc = format!("{loc} <- {short}");
+                    break;
+                }
+            }
+        }
         LAST_PANIC.with(|p| *p.borrow_mut() = Some((msg, loc)));
         if !QUIET_PANICS.with(|q| q.get()) {
             default(info);
